@@ -1,40 +1,14 @@
-"""Fail-closed Python-`ast` -> Gallina translator for ak/short_uuid.py (property C20).
+"""C20's use of the shared translator harness/lib/pytranslate.py (read its docstring for the supported subset).
 
-`translate(source_text) -> coq_text` turns the WHOLE module into Coq definitions over the vocabulary of
-coq/C20/PyLib.v (one `py_*` definition per Python construct) and the `res` monad of coq/Common/Err.v.  The result is
-written to coq/gen/C20_Translated.v on every run (harness/props/c20.py:gen_consts), so coq/C20/TransEq.v (translated
-functions = hand model, on all inputs) and the `*_translated` corollaries of coq/C20/Props.v are re-checked against
-what the source says NOW.  Anything outside the subset below raises `Unsupported` ("correspondence broken").
-
-Supported subset (everything else raises):
-  module level   docstring; `import uuid`; `NAME = <pure expression>` (each name once); `def` without decorators,
-                 defaults, *args/**kwargs, nested functions, recursion, global/nonlocal
-  types          int -> Z, bool, str -> list Z (code points; a character is a str of length 1), list[T], dict[K, V]
-                 (K in int/str) as association list, tuples (only built and taken apart), uuid.UUID objects (abstract
-                 type of the `uuid_lib` record), "any object" for the parameters of the API functions declared so in
-                 ENTRY (case split PyStr / PyOther at function entry; on the PyOther side only isinstance(x, str) is allowed)
-  expressions    int/str/bool literals; names; + - * // % divmod unary-; ** and << with a literal non-negative right
-                 operand; str + str, str * int, list + list; comparisons == != < <= > >= on int, == != on str/bool,
-                 chains of pure comparisons; in / not in over list and dict; and / or / not (short circuit, truthiness
-                 of int/str/list); x if c else y; len(str|list); isinstance(x, str|int); seq[i] (negative indices,
-                 IndexError), str/list slices [a:b] and [::-1]; dict[k] (KeyError); list.index(x) (ValueError);
-                 str.rjust/ljust(w[, fill]), str.strip/lstrip/rstrip(chars), sep.join(iterable); list(it), dict(it);
-                 list/generator/dict comprehensions with ONE `for`, pure element and pure `if`s; iterables: str, list,
-                 reversed(it), enumerate(it[, start]), range(a[, b]), zip(a, b); calls of the module's own functions;
-                 uuid.UUID(int=e), uuid.UUID(e) with e a str, e.int on a UUID
-  statements     assignment to a name / tuple of names, augmented assignment to a name, if/elif/else, pass, assert,
-                 return <expr>, raise Class[(harmless message)] [from name], bare raise in a handler,
-                 try/except Class | (Class, ...) [as name] (no else/finally), while (no else/break/continue/return
-                 inside) -> Fixpoint on `fuel` with `Err Hang` when it runs out, for over an iterable (same limits) ->
-                 structural Fixpoint on the list of items
-  exceptions     ValueError KeyError IndexError TypeError AssertionError AttributeError (and LookupError, Exception
-                 in except clauses); ZeroDivisionError of // % divmod is the unnamed OtherErr and can only be caught
-                 by `except Exception`
-Every translated function takes `(L : uuid_lib) (fuel : nat)` first, whether it needs them or not.
+`translate(source_text) -> coq_text` translates the WHOLE of ak/short_uuid.py (whole-module mode: every top-level statement
+must be in the subset) into coq/gen/C20_Translated.v; coq/C20/TransEq.v proves the translated functions equal to the hand
+model and coq/C20/PropsTranslated.v restates the property theorems for them.  The standard library (module uuid) enters as
+the record `uuid_lib` of coq/C20/PyLib.v: every translated function takes `(L : uuid_lib) (fuel : nat)` first.
 """
-import ast
-import re
 import sys
+
+from harness.lib import pytranslate
+from harness.lib.pytranslate import Unsupported  # noqa: F401  (re-exported for c20.py)
 
 ENTRY = {  # parameter types of the API functions (the helpers' types are inferred from their call sites)
     "uuid_from_short_str": ["obj"],
@@ -42,1144 +16,32 @@ ENTRY = {  # parameter types of the API functions (the helpers' types are inferr
     "uuid_from_str": ["str"],
 }
 ENTRY_RET = {"uuid_from_short_str": "uuid", "uuid_to_short_str": "str", "uuid_from_str": "uuid"}
-PREFIX = "T_"      # translated module-level names
-VPREFIX = "v_"     # translated local names
 
-EXC_RAISE = {"ValueError": "ValueErr", "KeyError": "KeyErr", "IndexError": "IndexErr", "TypeError": "TypeErr",
-             "AssertionError": "AssertErr", "AttributeError": "AttrErr"}
-EXC_CATCH = dict({k: [v] for k, v in EXC_RAISE.items()},
-                 LookupError=["KeyErr", "IndexErr"],
-                 Exception=["ValueErr", "KeyErr", "IndexErr", "AssertErr", "AttrErr", "TypeErr", "OtherErr"])
-IDENT = re.compile(r"^[A-Za-z_][A-Za-z0-9_]*$")
-# names whose builtin meaning the translator relies on: the module must not rebind them
-RESERVED = {"len", "divmod", "isinstance", "list", "dict", "reversed", "enumerate", "range", "zip", "str", "int",
-            "uuid", "True", "False", "None"} | set(EXC_CATCH)
 
+def config():
+    return pytranslate.Config(
+        source_name="ak/short_uuid.py", lib_binder="(L : uuid_lib)", lib_arg="L",
+        ext_types={"uuid": "UUID L"},
+        ext_calls={("uuid", "UUID", 0, ("int",)): ("UUID_of_int L", ["int"], "uuid"),      # uuid.UUID(int=n)
+                   ("uuid", "UUID", 1, ()): ("UUID_of_str L", ["str"], "uuid")},           # uuid.UUID(s)
+        ext_attrs={("uuid", "int"): ("UUID_int L", "int")},                                # u.int
+        imports={"uuid"}, coq_imports=["C20.PyLib"])
 
-class Unsupported(Exception):
-    """the source leaves the supported subset"""
 
-
-class Impure(Exception):
-    """internal: an expression that may raise occurs where only a pure one can be translated"""
-
-
-def bad(node, why):
-    line = getattr(node, "lineno", "?")
-    raise Unsupported(f"ak/short_uuid.py line {line}: {why} [{type(node).__name__}]")
-
-
-def ind(text, n=2):
-    return "\n".join((" " * n + l) if l else l for l in text.split("\n"))
-
-
-def zlit(v):
-    return str(v) if v >= 0 else f"({v})"
-
-
-def strlit(s):
-    return "([] : list Z)" if not s else "[" + "; ".join(str(ord(c)) for c in s) + "]"
-
-
-def coq_type(t):
-    if t == "int":
-        return "Z"
-    if t == "bool":
-        return "bool"
-    if t == "str":
-        return "list Z"
-    if t == "uuid":
-        return "UUID L"
-    if t == "obj":
-        return "pyobj"
-    if isinstance(t, tuple) and t[0] == "list":
-        return f"list ({coq_type(t[1])})"
-    if isinstance(t, tuple) and t[0] == "dict":
-        return f"list ({coq_type(t[1])} * {coq_type(t[2])})"
-    if isinstance(t, tuple) and t[0] == "tuple":
-        return "(" + " * ".join(coq_type(x) for x in t[1]) + ")"
-    raise Unsupported(f"no Coq type for {t}")
-
-
-def eqb_for(t, node):
-    if t == "int":
-        return "Z.eqb"
-    if t == "str":
-        return "py_str_eqb"
-    if t == "bool":
-        return "Bool.eqb"
-    bad(node, f"equality on values of type {t}")
-
-
-def tuple_pat(names):
-    if not names:
-        return "_"
-    if len(names) == 1:
-        return names[0]
-    return "'(" + ", ".join(names) + ")"
-
-
-def tuple_term(names):
-    if not names:
-        return "tt"
-    if len(names) == 1:
-        return names[0]
-    return "(" + ", ".join(names) + ")"
-
-
-def assigned_names(stmts):
-    out = []
-
-    def tgt(t):
-        if isinstance(t, ast.Name):
-            out.append(t.id)
-        elif isinstance(t, (ast.Tuple, ast.List)):
-            for x in t.elts:
-                tgt(x)
-
-    for n in stmts:
-        for s in ast.walk(n):
-            if isinstance(s, ast.Assign):
-                for t in s.targets:
-                    tgt(t)
-            elif isinstance(s, (ast.AugAssign, ast.AnnAssign, ast.For)):
-                tgt(s.target)
-            elif isinstance(s, ast.ExceptHandler) and s.name:
-                out.append(s.name)
-            elif isinstance(s, ast.NamedExpr):
-                tgt(s.target)
-    return out
-
-
-def loaded_names(nodes):
-    return {n.id for top in nodes for n in ast.walk(top) if isinstance(n, ast.Name)}
-
-
-def falls_through(stmts):
-    if not stmts:
-        return True
-    last = stmts[-1]
-    if isinstance(last, (ast.Return, ast.Raise)):
-        return False
-    if isinstance(last, ast.If):
-        return falls_through(last.body) or falls_through(last.orelse)
-    return True
-
-
-def contains(stmts, kinds):
-    return any(isinstance(n, kinds) for top in stmts for n in ast.walk(top))
-
-
-class Ctl:
-    """how `return` is rendered in the block being translated"""
-
-    def __init__(self, fn, ret, handler_var=None):
-        self.fn, self.ret, self.handler_var = fn, ret, handler_var
-
-    def with_handler(self, var):
-        return Ctl(self.fn, self.ret, var)
-
-
-class Fn:
-    """translation of one function"""
-
-    def __init__(self, mod, node, ptypes):
-        self.mod, self.node, self.ptypes = mod, node, ptypes
-        self.name = node.name
-        self.aux = []        # loop Fixpoints, in order
-        self.ntmp = 0
-        self.nloop = 0
-        self.nver = 0
-        self.rtype = None
-
-    # ---------------------------------------------------------------- helpers
-    def fresh(self, hint="t"):
-        self.ntmp += 1
-        return f"{hint}{self.ntmp}"
-
-    def setvar(self, env, name, ty, node):
-        if not IDENT.match(name):
-            bad(node, f"identifier {name!r}")
-        if name in self.mod.module_names:
-            bad(node, f"local name {name} shadows a module-level name")
-        self.nver += 1
-        env2 = dict(env)
-        env2[name] = (ty, self.nver)
-        return env2
-
-    def note_ret(self, ty, node):
-        if self.rtype is None:
-            self.rtype = ty
-        elif self.rtype != ty:
-            bad(node, f"function returns both {self.rtype} and {ty}")
-
-    def bind(self, comp, ty, k, po, node):
-        if po:
-            raise Impure(f"line {getattr(node, 'lineno', '?')}: expression may raise")
-        x = self.fresh()
-        return f"bind ({comp}) (fun {x} =>\n{k(x, ty)})"
-
-    def pure(self, e, env):
-        box = []
-
-        def k(t, ty):
-            box.append((t, ty))
-            return "<HOLE>"
-        out = self.expr(e, env, k, True)
-        if out != "<HOLE>" or len(box) != 1:
-            bad(e, "internal: pure expression was wrapped")
-        return box[0]
-
-    def pure_or_unsupported(self, e, env, what):
-        try:
-            return self.pure(e, env)
-        except Impure as ex:
-            bad(e, f"{what} must not be able to raise ({ex})")
-
-    # ---------------------------------------------------------------- expressions
-    def exprs(self, es, env, k, po):
-        """evaluate left to right; k([(term, type)])"""
-        def go(i, acc):
-            if i == len(es):
-                return k(acc)
-            return self.expr(es[i], env, lambda t, ty: go(i + 1, acc + [(t, ty)]), po)
-        return go(0, [])
-
-    def cond(self, e, env, k, po=False):
-        """expression in a boolean position -> k(bool term, 'bool')"""
-        if isinstance(e, ast.BoolOp):
-            return self.boolop(e, list(e.values), env, k, po, False)
-
-        def conv(t, ty):
-            if ty == "bool":
-                return k(t, "bool")
-            if ty == "int":
-                return k(f"(py_truthy_int {t})", "bool")
-            if ty == "str" or (isinstance(ty, tuple) and ty[0] == "list"):
-                return k(f"(py_truthy_list {t})", "bool")
-            bad(e, f"truth value of {ty}")
-        return self.expr(e, env, conv, po)
-
-    def expr(self, e, env, k, po=False):
-        if isinstance(e, ast.Constant):
-            v = e.value
-            if v is True or v is False:
-                return k("true" if v else "false", "bool")
-            if isinstance(v, int):
-                return k(zlit(v), "int")
-            if isinstance(v, str):
-                return k(strlit(v), "str")
-            bad(e, f"literal {v!r}")
-        if isinstance(e, ast.Name):
-            if e.id in env:
-                ty = env[e.id][0]
-                if ty in ("other", "exc"):
-                    bad(e, f"use of {e.id}, which is not a str here")
-                return k(VPREFIX + e.id, ty)
-            if e.id in self.mod.consts:
-                return k(PREFIX + e.id, self.mod.consts[e.id])
-            bad(e, f"name {e.id} is not a local variable or module constant defined before")
-        if isinstance(e, ast.Tuple):
-            return self.exprs(e.elts, env, lambda xs: k("(" + ", ".join(t for t, _ in xs) + ")",
-                                                        ("tuple", tuple(ty for _, ty in xs))), po)
-        if isinstance(e, ast.BinOp):
-            return self.exprs([e.left, e.right], env, lambda xs: self.binop(e, xs[0], xs[1], k, po), po)
-        if isinstance(e, ast.UnaryOp):
-            if isinstance(e.op, ast.Not):
-                def neg(t, _):
-                    return k({"true": "false", "false": "true"}.get(t, f"(negb {t})"), "bool")
-                return self.cond(e.operand, env, neg, po)
-            if isinstance(e.op, ast.USub):
-                def minus(t, ty):
-                    if ty != "int":
-                        bad(e, f"unary minus on {ty}")
-                    return k(f"(- {t})", "int")
-                return self.expr(e.operand, env, minus, po)
-            bad(e, "unary operator")
-        if isinstance(e, ast.BoolOp):
-            return self.boolop(e, list(e.values), env, k, po, True)
-        if isinstance(e, ast.Compare):
-            return self.compare(e, env, k, po)
-        if isinstance(e, ast.IfExp):
-            return self.ifexp(e, env, k, po)
-        if isinstance(e, ast.Subscript):
-            return self.subscript(e, env, k, po)
-        if isinstance(e, ast.Attribute):
-            def attr(t, ty):
-                if ty == "uuid" and e.attr == "int":
-                    return k(f"(UUID_int L {t})", "int")
-                bad(e, f"attribute .{e.attr} of {ty}")
-            if isinstance(e.value, ast.Name) and e.value.id == "uuid" and e.value.id not in env:
-                bad(e, "uuid.<name> outside a call of uuid.UUID")
-            return self.expr(e.value, env, attr, po)
-        if isinstance(e, ast.Call):
-            return self.call(e, env, k, po)
-        if isinstance(e, (ast.ListComp, ast.GeneratorExp, ast.DictComp)):
-            return self.comprehension(e, env, k, po)
-        bad(e, "expression form")
-
-    def binop(self, e, a, b, k, po):
-        (x, tx), (y, ty) = a, b
-        op = e.op
-        if tx == "int" and ty == "int":
-            if isinstance(op, ast.Add):
-                return k(f"({x} + {y})", "int")
-            if isinstance(op, ast.Sub):
-                return k(f"({x} - {y})", "int")
-            if isinstance(op, ast.Mult):
-                return k(f"({x} * {y})", "int")
-            if isinstance(op, ast.FloorDiv):
-                return self.bind(f"py_floordiv {x} {y}", "int", k, po, e)
-            if isinstance(op, ast.Mod):
-                return self.bind(f"py_mod {x} {y}", "int", k, po, e)
-            if isinstance(op, (ast.Pow, ast.LShift)):
-                r = e.right
-                if not (isinstance(r, ast.Constant) and isinstance(r.value, int) and not isinstance(r.value, bool)
-                        and 0 <= r.value <= 4096):
-                    bad(e, "** and << need a literal right operand in 0..4096")
-                return k(f"({x} ^ {y})" if isinstance(op, ast.Pow) else f"(Z.shiftl {x} {y})", "int")
-            bad(e, "integer operator")
-        if isinstance(op, ast.Add) and tx == ty and (tx == "str" or (isinstance(tx, tuple) and tx[0] == "list")):
-            return k(f"({x} ++ {y})", tx)
-        if isinstance(op, ast.Mult) and tx == "str" and ty == "int":
-            return k(f"(py_str_mul {x} {y})", "str")
-        if isinstance(op, ast.Mult) and tx == "int" and ty == "str":
-            return k(f"(py_str_mul {y} {x})", "str")
-        bad(e, f"operator on {tx} and {ty}")
-
-    def boolop(self, e, values, env, k, po, strict):
-        """strict: the value of `a or b` is used as a value, where Python yields one of the OPERANDS:
-        only bool operands are translated then; in a boolean position truthiness is enough"""
-        is_or = isinstance(e.op, ast.Or)
-        first, rest = values[0], values[1:]
-
-        def operand(x, kk, po_):
-            if not strict:
-                return self.cond(x, env, kk, po_)
-
-            def only_bool(t, ty):
-                if ty != "bool":
-                    bad(e, f"`and` / `or` used as a value with an operand of type {ty}")
-                return kk(t, ty)
-            return self.expr(x, env, only_bool, po_)
-        if not rest:
-            return operand(first, k, po)
-
-        def k1(a, _):
-            if a == ("true" if is_or else "false"):
-                return k(a, "bool")           # short circuit: the rest is never evaluated
-            if a == ("false" if is_or else "true"):
-                return self.boolop(e, rest, env, k, po, strict)
-            try:
-                box = []
-                out = self.boolop(e, rest, env, lambda t, ty: (box.append(t), "<HOLE>")[1], True, strict)
-                if out != "<HOLE>":
-                    bad(e, "internal: boolean operand was wrapped")
-                b = box[0]
-                return k(f"({a} || {b})" if is_or else f"({a} && {b})", "bool")
-            except Impure:
-                if po:
-                    raise
-                inner = self.boolop(e, rest, env, lambda t, ty: f"Ok {t}", False, strict)
-                x = self.fresh()
-                comp = f"if {a} then Ok true else\n{ind(inner)}" if is_or else f"if {a} then\n{ind(inner)}\nelse Ok false"
-                return f"bind ({comp}) (fun {x} =>\n{k(x, 'bool')})"
-        return operand(first, k1, po)
-
-    def cmp1(self, e, op, a, b):
-        (x, tx), (y, ty) = a, b
-        if isinstance(op, (ast.In, ast.NotIn)):
-            if isinstance(ty, tuple) and ty[0] == "list" and ty[1] == tx:
-                t = f"(py_in {eqb_for(tx, e)} {x} {y})"
-            elif isinstance(ty, tuple) and ty[0] == "dict" and ty[1] == tx:
-                t = f"(py_dict_has {eqb_for(tx, e)} {y} {x})"
-            else:
-                bad(e, f"`in` on {tx} and {ty}")
-            return t if isinstance(op, ast.In) else f"(negb {t})"
-        if tx != ty:
-            bad(e, f"comparison of {tx} with {ty}")
-        if isinstance(op, (ast.Eq, ast.NotEq)):
-            t = f"({eqb_for(tx, e)} {x} {y})"
-            return t if isinstance(op, ast.Eq) else f"(negb {t})"
-        if tx != "int":
-            bad(e, f"ordering on {tx}")
-        if isinstance(op, ast.Lt):
-            return f"({x} <? {y})"
-        if isinstance(op, ast.LtE):
-            return f"({x} <=? {y})"
-        if isinstance(op, ast.Gt):
-            return f"({y} <? {x})"
-        if isinstance(op, ast.GtE):
-            return f"({y} <=? {x})"
-        bad(e, "comparison operator")
-
-    def compare(self, e, env, k, po):
-        if len(e.ops) == 1:
-            return self.exprs([e.left, e.comparators[0]], env,
-                              lambda xs: k(self.cmp1(e, e.ops[0], xs[0], xs[1]), "bool"), po)
-        operands = [self.pure_or_unsupported(x, env, "an operand of a chained comparison") for x in [e.left] + e.comparators]
-        parts = [self.cmp1(e, op, operands[i], operands[i + 1]) for i, op in enumerate(e.ops)]
-        return k("(" + " && ".join(parts) + ")", "bool")
-
-    def ifexp(self, e, env, k, po):
-        def k1(c, _):
-            if c == "true":
-                return self.expr(e.body, env, k, po)
-            if c == "false":
-                return self.expr(e.orelse, env, k, po)
-            try:
-                (a, ta), (b, tb) = self.pure(e.body, env), self.pure(e.orelse, env)
-                if ta != tb:
-                    bad(e, f"branches of a conditional expression have types {ta} and {tb}")
-                return k(f"(if {c} then {a} else {b})", ta)
-            except Impure:
-                if po:
-                    raise
-            tys = []
-            a = self.expr(e.body, env, lambda t, ty: (tys.append(ty), f"Ok {t}")[1], False)
-            b = self.expr(e.orelse, env, lambda t, ty: (tys.append(ty), f"Ok {t}")[1], False)
-            if tys[0] != tys[1]:
-                bad(e, f"branches of a conditional expression have types {tys[0]} and {tys[1]}")
-            x = self.fresh()
-            return f"bind (if {c} then\n{ind(a)}\nelse\n{ind(b)}) (fun {x} =>\n{k(x, tys[0])})"
-        return self.cond(e.test, env, k1, po)
-
-    def subscript(self, e, env, k, po):
-        sl = e.slice
-        if isinstance(sl, ast.Slice):
-            def with_value(v, tv):
-                if not (tv == "str" or (isinstance(tv, tuple) and tv[0] == "list")):
-                    bad(e, f"slice of {tv}")
-                if sl.step is not None:
-                    st = sl.step
-                    if (isinstance(st, ast.UnaryOp) and isinstance(st.op, ast.USub) and isinstance(st.operand, ast.Constant)
-                            and st.operand.value == 1 and sl.lower is None and sl.upper is None):
-                        return k(f"(rev {v})", tv)
-                    bad(e, "slice with a step (only [::-1] is supported)")
-                bounds = [b for b in (sl.lower, sl.upper) if b is not None]
-
-                def with_bounds(xs):
-                    xs = list(xs)
-                    for _, tb in xs:
-                        if tb != "int":
-                            bad(e, f"slice bound of type {tb}")
-                    lo = f"(Some {xs.pop(0)[0]})" if sl.lower is not None else "None"
-                    hi = f"(Some {xs.pop(0)[0]})" if sl.upper is not None else "None"
-                    return k(f"(py_slice {v} {lo} {hi})", tv)
-                return self.exprs(bounds, env, with_bounds, po)
-            return self.expr(e.value, env, with_value, po)
-
-        def with_both(xs):
-            (v, tv), (i, ti) = xs
-            if tv == "str" and ti == "int":
-                return self.bind(f"py_str_get {v} {i}", "str", k, po, e)
-            if isinstance(tv, tuple) and tv[0] == "list" and ti == "int":
-                return self.bind(f"py_list_get {v} {i}", tv[1], k, po, e)
-            if isinstance(tv, tuple) and tv[0] == "dict" and ti == tv[1]:
-                return self.bind(f"py_dict_get {eqb_for(ti, e)} {v} {i}", tv[2], k, po, e)
-            bad(e, f"subscript of {tv} with {ti}")
-        return self.exprs([e.value, sl], env, with_both, po)
-
-    def iterable(self, e, env, k, po):
-        """k(term : list T, T)"""
-        if isinstance(e, ast.Call) and isinstance(e.func, ast.Name) and e.func.id not in env and not e.keywords:
-            f, args = e.func.id, e.args
-            if f == "reversed" and len(args) == 1:
-                return self.iterable(args[0], env, lambda t, ty: k(f"(rev {t})", ty), po)
-            if f == "enumerate" and len(args) in (1, 2):
-                def enum(t, ty):
-                    if len(args) == 1:
-                        return k(f"(py_enumerate_from 0 {t})", ("tuple", ("int", ty)))
-
-                    def with_start(s, ts):
-                        if ts != "int":
-                            bad(e, "enumerate start")
-                        return k(f"(py_enumerate_from {s} {t})", ("tuple", ("int", ty)))
-                    return self.expr(args[1], env, with_start, po)
-                return self.iterable(args[0], env, enum, po)
-            if f == "range" and len(args) in (1, 2):
-                def rng(xs):
-                    if any(ty != "int" for _, ty in xs):
-                        bad(e, "range bounds")
-                    lo, hi = ("0", xs[0][0]) if len(xs) == 1 else (xs[0][0], xs[1][0])
-                    return k(f"(py_range {lo} {hi})", "int")
-                return self.exprs(args, env, rng, po)
-            if f == "zip" and len(args) == 2:
-                return self.iterable(args[0], env, lambda a, ta: self.iterable(
-                    args[1], env, lambda b, tb: k(f"(combine {a} {b})", ("tuple", (ta, tb))), po), po)
-
-        def plain(t, ty):
-            if ty == "str":
-                return k(f"(py_chars {t})", "str")
-            if isinstance(ty, tuple) and ty[0] == "list":
-                return k(t, ty[1])
-            bad(e, f"iteration over {ty}")
-        return self.expr(e, env, plain, po)
-
-    def target_pattern(self, tgt, ty, env, node):
-        """-> (coq pattern without the leading quote, env')"""
-        if isinstance(tgt, ast.Name):
-            if tgt.id in env:
-                bad(node, f"loop / comprehension variable {tgt.id} re-uses an existing name")
-            return VPREFIX + tgt.id, self.setvar(env, tgt.id, ty, node)
-        if isinstance(tgt, ast.Tuple) and isinstance(ty, tuple) and ty[0] == "tuple" and len(ty[1]) == len(tgt.elts):
-            pats = []
-            for x, tx in zip(tgt.elts, ty[1]):
-                p, env = self.target_pattern(x, tx, env, node)
-                pats.append(p)
-            return "(" + ", ".join(pats) + ")", env
-        bad(node, f"target does not match items of type {ty}")
-
-    def comprehension(self, e, env, k, po):
-        if len(e.generators) != 1 or e.generators[0].is_async:
-            bad(e, "comprehension with several `for`")
-        g = e.generators[0]
-
-        def with_iter(it, telt):
-            pat, env2 = self.target_pattern(g.target, telt, env, e)
-            fun = f"fun '{pat}" if pat.startswith("(") else f"fun {pat}"
-            for c in g.ifs:
-                ct, cty = self.pure_or_unsupported(c, env2, "a comprehension condition")
-                if cty != "bool":
-                    bad(c, "comprehension condition must be a bool")
-                it = f"(filter ({fun} => {ct}) {it})"
-            if isinstance(e, ast.DictComp):
-                (a, ta) = self.pure_or_unsupported(e.key, env2, "a comprehension element")
-                (b, tb) = self.pure_or_unsupported(e.value, env2, "a comprehension element")
-                eqb_for(ta, e)
-                return k(f"(map ({fun} => ({a}, {b})) {it})", ("dict", ta, tb))
-            (a, ta) = self.pure_or_unsupported(e.elt, env2, "a comprehension element")
-            return k(f"(map ({fun} => {a}) {it})", ("list", ta))
-        return self.iterable(g.iter, env, with_iter, po)
-
-    def call(self, e, env, k, po):
-        f = e.func
-        if isinstance(f, ast.Name) and f.id not in env:
-            name = f.id
-            if name in self.mod.funcs:
-                if e.keywords:
-                    bad(e, "keyword arguments")
-                return self.exprs(e.args, env, lambda xs: self.call_own(e, name, xs, k, po), po)
-            if e.keywords:
-                bad(e, "keyword arguments")
-            if name == "len" and len(e.args) == 1:
-                def ln(t, ty):
-                    if ty == "str" or (isinstance(ty, tuple) and ty[0] == "list"):
-                        return k(f"(py_len {t})", "int")
-                    bad(e, f"len of {ty}")
-                return self.expr(e.args[0], env, ln, po)
-            if name == "divmod" and len(e.args) == 2:
-                def dm(xs):
-                    if [ty for _, ty in xs] != ["int", "int"]:
-                        bad(e, "divmod of non-integers")
-                    return self.bind(f"py_divmod {xs[0][0]} {xs[1][0]}", ("tuple", ("int", "int")), k, po, e)
-                return self.exprs(e.args, env, dm, po)
-            if name == "isinstance" and len(e.args) == 2:
-                cls = e.args[1]
-                if not (isinstance(cls, ast.Name) and cls.id in ("str", "int") and cls.id not in env):
-                    bad(e, "isinstance with a class other than str / int")
-                a = e.args[0]
-                if isinstance(a, ast.Name) and a.id in env and env[a.id][0] == "other":
-                    if cls.id != "str":
-                        bad(e, "isinstance(<unknown object>, int)")
-                    return k("false", "bool")
-
-                def inst(t, ty):
-                    if ty in ("uuid", "obj"):
-                        bad(e, f"isinstance on {ty}")
-                    yes = (cls.id == "str" and ty == "str") or (cls.id == "int" and ty in ("int", "bool"))
-                    return k("true" if yes else "false", "bool")
-                return self.expr(a, env, inst, po)
-            if name == "list" and len(e.args) == 1:
-                return self.iterable(e.args[0], env, lambda t, ty: k(t, ("list", ty)), po)
-            if name == "dict" and len(e.args) == 1:
-                def dct(t, ty):
-                    if not (isinstance(ty, tuple) and ty[0] == "tuple" and len(ty[1]) == 2):
-                        bad(e, "dict() of something that is not an iterable of pairs")
-                    eqb_for(ty[1][0], e)
-                    return k(t, ("dict", ty[1][0], ty[1][1]))
-                return self.iterable(e.args[0], env, dct, po)
-            bad(e, f"call of {name}")
-        if isinstance(f, ast.Attribute):
-            if isinstance(f.value, ast.Name) and f.value.id == "uuid" and "uuid" not in env and self.mod.imports_uuid:
-                if f.attr != "UUID":
-                    bad(e, f"uuid.{f.attr}")
-                if len(e.args) == 0 and len(e.keywords) == 1 and e.keywords[0].arg == "int":
-                    def of_int(t, ty):
-                        if ty != "int":
-                            bad(e, f"uuid.UUID(int=<{ty}>)")
-                        return self.bind(f"UUID_of_int L {t}", "uuid", k, po, e)
-                    return self.expr(e.keywords[0].value, env, of_int, po)
-                if len(e.args) == 1 and not e.keywords:
-                    def of_str(t, ty):
-                        if ty != "str":
-                            bad(e, f"uuid.UUID(<{ty}>)")
-                        return self.bind(f"UUID_of_str L {t}", "uuid", k, po, e)
-                    return self.expr(e.args[0], env, of_str, po)
-                bad(e, "uuid.UUID with arguments other than (str) or (int=...)")
-            if e.keywords:
-                bad(e, "keyword arguments")
-            meth = f.attr
-            if meth == "join" and len(e.args) == 1:
-                def join(sep, tsep):
-                    if tsep != "str":
-                        bad(e, f".join on {tsep}")
-
-                    def joined(it, telt):
-                        if telt != "str":
-                            bad(e, f"join of items of type {telt}")
-                        return k(f"(py_join {sep} {it})", "str")
-                    return self.iterable(e.args[0], env, joined, po)
-                return self.expr(f.value, env, join, po)
-
-            def method(xs):
-                (r, tr), args = xs[0], xs[1:]
-                targs = [ty for _, ty in args]
-                a = [t for t, _ in args]
-                if tr == "str" and meth in ("rjust", "ljust") and targs in (["int"], ["int", "str"]):
-                    fill = a[1] if len(a) == 2 else "[32]"
-                    return self.bind(f"py_{meth} {r} {a[0]} {fill}", "str", k, po, e)
-                if tr == "str" and meth in ("strip", "lstrip", "rstrip") and targs == ["str"]:
-                    return k(f"(py_{meth} {r} {a[0]})", "str")
-                if isinstance(tr, tuple) and tr[0] == "list" and meth == "index" and targs == [tr[1]]:
-                    return self.bind(f"py_list_index {eqb_for(tr[1], e)} {r} {a[0]}", "int", k, po, e)
-                bad(e, f"method .{meth} of {tr} with arguments {targs}")
-            return self.exprs([f.value] + list(e.args), env, method, po)
-        bad(e, "call")
-
-    def call_own(self, e, name, xs, k, po):
-        ptypes = self.mod.signature(name, [ty for _, ty in xs], e)
-        if len(ptypes) != len(xs):
-            bad(e, f"{name} called with {len(xs)} arguments")
-        args = []
-        for (t, ty), pt in zip(xs, ptypes):
-            if pt == "obj" and ty == "str":
-                args.append(f"(PyStr {t})")
-            elif pt == ty:
-                args.append(t)
-            else:
-                bad(e, f"{name} called with {ty} where {pt} is expected")
-        rtype = self.mod.function(name, e)
-        return self.bind(" ".join([PREFIX + name, "L", "fuel"] + args), rtype, k, po, e)
-
-    # ---------------------------------------------------------------- statements
-    def assign(self, tgt, t, ty, env, cont, node):
-        if isinstance(tgt, ast.Name):
-            env2 = self.setvar(env, tgt.id, ty, node)
-            return f"let {VPREFIX}{tgt.id} := {t} in\n{cont(env2)}"
-        if isinstance(tgt, ast.Tuple) and all(isinstance(x, ast.Name) for x in tgt.elts):
-            names = [x.id for x in tgt.elts]
-            if not (isinstance(ty, tuple) and ty[0] == "tuple" and len(ty[1]) == len(names)) or len(set(names)) != len(names):
-                bad(node, f"cannot unpack {ty} into {names}")
-            env2 = env
-            for n, tn in zip(names, ty[1]):
-                env2 = self.setvar(env2, n, tn, node)
-            return f"let '({', '.join(VPREFIX + n for n in names)}) := {t} in\n{cont(env2)}"
-        bad(node, "assignment target")
-
-    def harmless_message(self, args, env):
-        for a in args:
-            if isinstance(a, ast.Constant):
-                continue
-            def known(n):
-                return isinstance(n, ast.Name) and (n.id in env or n.id in self.mod.module_names)
-            if known(a):
-                continue
-            if isinstance(a, ast.JoinedStr) and all(
-                    isinstance(v, ast.Constant) or (isinstance(v, ast.FormattedValue) and known(v.value)
-                                                    and v.format_spec is None) for v in a.values):
-                continue
-            bad(a, "exception argument that is not a literal, a name or an f-string over names")
-
-    def block(self, stmts, env, k, ctl):
-        if not stmts:
-            return k(env)
-        s, rest = stmts[0], stmts[1:]
-
-        def cont(env2):
-            return self.block(rest, env2, k, ctl)
-
-        if isinstance(s, ast.Expr) and isinstance(s.value, ast.Constant) and isinstance(s.value.value, str):
-            return cont(env)
-        if isinstance(s, ast.Pass):
-            return cont(env)
-        if isinstance(s, ast.Assign):
-            if len(s.targets) != 1:
-                bad(s, "chained assignment")
-            return self.expr(s.value, env, lambda t, ty: self.assign(s.targets[0], t, ty, env, cont, s))
-        if isinstance(s, ast.AugAssign):
-            if not isinstance(s.target, ast.Name):
-                bad(s, "augmented assignment target")
-            load = ast.copy_location(ast.Name(id=s.target.id, ctx=ast.Load()), s)
-            value = ast.copy_location(ast.BinOp(left=load, op=s.op, right=s.value), s)
-            def aug(t, ty):
-                if ty != "int" and ty != "str":
-                    bad(s, f"augmented assignment on {ty} (mutates the object in place)")
-                return self.assign(s.target, t, ty, env, cont, s)
-            return self.expr(value, env, aug)
-        if isinstance(s, ast.If):
-            def branch(c, _):
-                if c == "true":
-                    return self.block(s.body, env, cont, ctl)
-                if c == "false":
-                    return self.block(s.orelse, env, cont, ctl)
-                a = self.block(s.body, env, cont, ctl)
-                b = self.block(s.orelse, env, cont, ctl)
-                return f"if {c} then\n{ind(a)}\nelse\n{ind(b)}"
-            return self.cond(s.test, env, branch)
-        if isinstance(s, ast.Assert):
-            if s.msg is not None:
-                self.harmless_message([s.msg], env)
-            return self.cond(s.test, env, lambda c, _: f"if {c} then\n{ind(cont(env))}\nelse Err AssertErr")
-        if isinstance(s, ast.Return):
-            if s.value is None:
-                bad(s, "return without a value")
-            return self.expr(s.value, env, lambda t, ty: ctl.ret(t, ty, s))
-        if isinstance(s, ast.Raise):
-            if s.exc is None:
-                if ctl.handler_var is None:
-                    bad(s, "bare raise outside a handler")
-                return f"Err {ctl.handler_var}"
-            exc = s.exc
-            args = []
-            if isinstance(exc, ast.Call) and not exc.keywords:
-                exc, args = exc.func, exc.args
-            if not (isinstance(exc, ast.Name) and exc.id in EXC_RAISE and exc.id not in env):
-                bad(s, "raise of something that is not one of " + ", ".join(EXC_RAISE))
-            self.harmless_message(args, env)
-            if s.cause is not None and not isinstance(s.cause, (ast.Name, ast.Constant)):
-                bad(s, "raise ... from <expression>")
-            return f"Err {EXC_RAISE[exc.id]}"
-        if isinstance(s, ast.Try):
-            return self.try_(s, env, cont, ctl)
-        if isinstance(s, ast.While):
-            return self.loop(s, env, cont, ctl)
-        if isinstance(s, ast.For):
-            return self.loop(s, env, cont, ctl)
-        bad(s, "statement form")
-
-    def try_(self, s, env, cont, ctl):
-        if s.orelse or s.finalbody or not s.handlers:
-            bad(s, "try with else / finally / without handlers")
-        has_ret = contains(s.body, ast.Return)
-        falls = falls_through(s.body)
-        ver0 = self.nver
-        state = {}
-
-        def k_body(env_end):
-            names = sorted([n for n in env_end if env_end[n][1] > ver0], key=lambda n: env_end[n][1])
-            types = [env_end[n][0] for n in names]
-            if state and (state["names"], state["types"]) != (names, types):
-                bad(s, "the paths through the try body define different variables")
-            state.update(names=names, types=types)
-            t = tuple_term([VPREFIX + n for n in names])
-            return f"Ok (Next {t})" if has_ret else f"Ok {t}"
-
-        def ret_body(t, ty, node):
-            self.note_ret(ty, node)
-            return f"Ok (Return {t})" if falls else f"Ok {t}"
-
-        body = self.block(s.body, env, k_body, Ctl(self, ret_body, ctl.handler_var))
-        arms = []
-        r = self.fresh("r")
-        if has_ret:
-            arms.append((f"Ok (Return {r})" if falls else f"Ok {r}", ctl.ret(r, self.rtype, s)))
-        if falls and state:
-            env2 = env
-            for n, tn in zip(state["names"], state["types"]):
-                env2 = self.setvar(env2, n, tn, s)
-            pat = tuple_pat([VPREFIX + n for n in state["names"]]).lstrip("'")
-            arms.append((f"Ok (Next {pat})" if has_ret else f"Ok {pat}", cont(env2)))
-        ev = self.fresh("e")
-        chain = f"Err {ev}"
-        for h in reversed(s.handlers):
-            if h.type is None:
-                bad(h, "bare except")
-            classes = [h.type] if isinstance(h.type, ast.Name) else list(h.type.elts) if isinstance(h.type, ast.Tuple) else None
-            if classes is None or not all(isinstance(c, ast.Name) and c.id in EXC_CATCH and c.id not in env for c in classes):
-                bad(h, "except clause names a class outside " + ", ".join(EXC_CATCH))
-            codes = []
-            for c in classes:
-                codes += [x for x in EXC_CATCH[c.id] if x not in codes]
-            env_h = self.setvar(env, h.name, "exc", h) if h.name else env
-            hb = self.block(h.body, env_h, cont, ctl.with_handler(ev))
-            chain = f"if py_catches [{'; '.join(codes)}] {ev} then\n{ind(hb)}\nelse\n{ind(chain)}"
-        arms.append((f"Err {ev}", chain))
-        return "match (\n" + ind(body) + "\n) with\n" + "\n".join(f"| {p} =>\n{ind(b, 4)}" for p, b in arms) + "\nend"
-
-    def loop(self, s, env, cont, ctl):
-        is_for = isinstance(s, ast.For)
-        if s.orelse:
-            bad(s, "loop with else")
-        if contains(s.body, (ast.Return, ast.Break, ast.Continue)):
-            bad(s, "return / break / continue inside a loop")
-        assigned = set(assigned_names(s.body))
-        by_ver = sorted(env, key=lambda n: env[n][1])
-        state = [n for n in by_ver if n in assigned]
-        used = loaded_names(s.body + ([] if is_for else [s.test]))
-        params = [n for n in by_ver if n in used and n not in state]
-        for n in params + state:
-            if env[n][0] in ("other", "exc"):
-                bad(s, f"{n} (not a str) is used in a loop")
-        self.nloop += 1
-        lname = f"{PREFIX}{self.name}_loop{self.nloop}"
-        env_in = {n: env[n] for n in params + state}
-        sterm = tuple_term([VPREFIX + n for n in state])
-        stype = coq_type(("tuple", tuple(env[n][0] for n in state))) if len(state) != 1 else coq_type(env[state[0]][0])
-        if not state:
-            stype = "unit"
-        binders = "".join(f" ({VPREFIX}{n} : {coq_type(env[n][0])})" for n in params + state)
-
-        def again(items):
-            def k_body(env_end):
-                for n in state:
-                    if env_end[n][0] != env[n][0]:
-                        bad(s, f"{n} changes its type inside the loop")
-                return " ".join([lname, "L", "fuel"] + items + [VPREFIX + n for n in params + state])
-            return k_body
-
-        def no_ret(t, ty, node):
-            bad(node, "return inside a loop")
-        lctl = Ctl(self, no_ret, ctl.handler_var)
-
-        def after(start_args):
-            env2 = env
-            for n in state:
-                env2 = self.setvar(env2, n, env[n][0], s)
-            pat = tuple_pat([VPREFIX + n for n in state])
-            return f"bind ({' '.join([lname, 'L', 'fuel'] + start_args + [VPREFIX + n for n in params + state])}) (fun {pat} =>\n{cont(env2)})"
-
-        if not is_for:
-            body = self.cond(s.test, env_in, lambda c, _:
-                             f"if {c} then\n{ind(self.block(s.body, env_in, again([]), lctl))}\nelse Ok {sterm}")
-            self.aux.append(
-                f"Fixpoint {lname} (L : uuid_lib) (fuel : nat){binders} {{struct fuel}} : res ({stype}) :=\n"
-                f"  match fuel with\n  | O => Err Hang\n  | S fuel =>\n{ind(body, 4)}\n  end.")
-            return after([])
-
-        for n in assigned_names([ast.Assign(targets=[s.target], value=None)]):
-            if n in env:
-                bad(s, f"loop variable {n} re-uses an existing name")
-
-        def with_iter(it, telt):
-            pat, env_body = self.target_pattern(s.target, telt, env_in, s)
-            body = self.block(s.body, env_body, again(["items"]), lctl)
-            self.aux.append(
-                f"Fixpoint {lname} (L : uuid_lib) (fuel : nat) (items : list ({coq_type(telt)})){binders} {{struct items}} : res ({stype}) :=\n"
-                f"  match items with\n  | [] => Ok {sterm}\n  | {pat} :: items =>\n{ind(body, 4)}\n  end.")
-            return after([it])
-        return self.iterable(s.iter, env, with_iter, False)
-
-    # ---------------------------------------------------------------- the function
-    def translate(self):
-        node = self.node
-        a = node.args
-        if (node.decorator_list or a.vararg or a.kwarg or a.kwonlyargs or a.defaults or a.kw_defaults or a.posonlyargs
-                or isinstance(node, ast.AsyncFunctionDef)):
-            bad(node, "decorators / defaults / *args / **kwargs / keyword-only parameters")
-        if contains(node.body, (ast.FunctionDef, ast.AsyncFunctionDef, ast.Lambda, ast.ClassDef, ast.Global, ast.Nonlocal,
-                                ast.Yield, ast.YieldFrom, ast.Await, ast.With, ast.Delete, ast.Import, ast.ImportFrom)):
-            bad(node, "nested def / lambda / class / global / yield / with / del / import inside a function")
-        names = [x.arg for x in a.args]
-        if len(names) != len(self.ptypes) or len(set(names)) != len(names):
-            bad(node, f"{self.name} has {len(names)} parameters, {len(self.ptypes)} expected")
-        env = {}
-        for n, t in zip(names, self.ptypes):
-            env = self.setvar(env, n, t, node)
-
-        def ret(t, ty, nd):
-            self.note_ret(ty, nd)
-            return f"Ok {t}"
-
-        def off_end(env_end):
-            bad(node, f"{self.name} may end without return (returns None)")
-
-        def split(todo, env):
-            if not todo:
-                return self.block(node.body, env, off_end, Ctl(self, ret))
-            p = todo[0]
-            e1, e2 = dict(env), dict(env)
-            e1[p] = ("str", env[p][1])
-            e2[p] = ("other", env[p][1])
-            return (f"match {VPREFIX}{p} with\n| PyStr {VPREFIX}{p} =>\n{ind(split(todo[1:], e1), 4)}\n"
-                    f"| PyOther =>\n{ind(split(todo[1:], e2), 4)}\nend")
-        body = split([n for n, t in zip(names, self.ptypes) if t == "obj"], env)
-        if self.rtype is None:
-            bad(node, f"{self.name} never returns a value")
-        binders = "".join(f" ({VPREFIX}{n} : {coq_type(t)})" for n, t in zip(names, self.ptypes))
-        text = "\n\n".join(self.aux + [
-            f"Definition {PREFIX}{self.name} (L : uuid_lib) (fuel : nat){binders} : res ({coq_type(self.rtype)}) :=\n{ind(body)}."])
-        return text, self.rtype
-
-
-class Module:
-    def __init__(self, source, entry=None):
-        self.entry = entry or ENTRY
-        try:
-            self.tree = ast.parse(source)
-        except SyntaxError as e:
-            raise Unsupported(f"ak/short_uuid.py does not parse: {e}")
-        self.consts = {}          # name -> type (defined so far)
-        self.const_defs = []
-        self.funcs = {}
-        self.imports_uuid = False
-        self.sigs = dict(self.entry)
-        self.done = {}            # name -> return type
-        self.in_progress = []
-        self.func_defs = []
-        self.module_names = set()
-
-    def signature(self, name, arg_types, node):
-        if name in self.sigs:
-            return self.sigs[name]
-        if any(t in ("other", "exc") for t in arg_types):
-            bad(node, f"{name} called with an argument that is not a str")
-        self.sigs[name] = list(arg_types)
-        return self.sigs[name]
-
-    def function(self, name, node):
-        if name in self.done:
-            return self.done[name]
-        if name in self.in_progress:
-            bad(node, f"recursive call of {name}")
-        self.in_progress.append(name)
-        text, rtype = Fn(self, self.funcs[name], self.sigs[name]).translate()
-        self.in_progress.pop()
-        self.func_defs.append(text)
-        self.done[name] = rtype
-        return rtype
-
-    def run(self):
-        body = self.tree.body
-        for n in body:
-            if isinstance(n, (ast.FunctionDef, ast.AsyncFunctionDef)):
-                self.module_names.add(n.name)
-            elif isinstance(n, ast.Assign):
-                self.module_names |= set(assigned_names([n]))
-        clash = sorted(self.module_names & RESERVED)
-        if clash:
-            raise Unsupported(f"ak/short_uuid.py rebinds {', '.join(clash)} at module level")
-        self.module_names.add("uuid")
-        const_fn = Fn(self, ast.parse("def _module_(): pass").body[0], [])
-        for i, n in enumerate(body):
-            if isinstance(n, ast.Expr) and isinstance(n.value, ast.Constant) and isinstance(n.value.value, str):
-                continue
-            if isinstance(n, ast.Import):
-                if len(n.names) == 1 and n.names[0].name == "uuid" and n.names[0].asname is None:
-                    self.imports_uuid = True
-                    continue
-                bad(n, "import other than `import uuid`")
-            if isinstance(n, ast.Assign):
-                if len(n.targets) != 1 or not isinstance(n.targets[0], ast.Name):
-                    bad(n, "module-level assignment target")
-                name = n.targets[0].id
-                if name in self.consts or name in self.funcs or not IDENT.match(name):
-                    bad(n, f"{name} is bound twice at module level")
-                try:
-                    term, ty = const_fn.pure(n.value, {})
-                except Impure as ex:
-                    bad(n, f"module-level initialiser may raise ({ex})")
-                if ty in ("uuid", "obj") or (isinstance(ty, tuple) and ty[0] == "tuple"):
-                    bad(n, f"module constant of type {ty}")
-                self.const_defs.append(f"Definition {PREFIX}{name} : {coq_type(ty)} :=\n  {term}.")
-                self.consts[name] = ty
-                continue
-            if isinstance(n, ast.FunctionDef):
-                if n.name in self.funcs or n.name in self.consts:
-                    bad(n, f"{n.name} is bound twice at module level")
-                if not IDENT.match(n.name):
-                    bad(n, "function name")
-                self.funcs[n.name] = n
-                continue
-            bad(n, "module-level statement")
-        if not self.imports_uuid:
-            raise Unsupported("ak/short_uuid.py does not `import uuid`")
-        # a function body sees every module constant: all of them must be defined before any call can happen,
-        # which holds because module level contains no calls of the module's own functions (checked by `pure`)
-        for name in self.entry:
-            if name not in self.funcs:
-                raise Unsupported(f"API function {name} is missing")
-        for name in self.entry:
-            rt = self.function(name, self.funcs[name])
-            if self.entry is not SELFTEST_ENTRY and rt != ENTRY_RET.get(name, rt):
-                bad(self.funcs[name], f"{name} returns {rt}, {ENTRY_RET[name]} expected")
-        for name, node in self.funcs.items():
-            if name not in self.done:
-                bad(node, f"{name} is never called from the API functions (parameter types unknown)")
-        sig_lines = [f"   {n}({', '.join(self.sigs[n])}) -> {self.done[n]}" for n in self.funcs]
-        header = ("(* generated from ak/short_uuid.py by harness/props/c20_translate.py -- do not edit.\n"
-                  "   Python-level signatures:\n" + "\n".join(sig_lines) + " *)\n"
-                  "From Coq Require Import ZArith List Bool.\n"
-                  "From AK Require Import Common.Err C20.PyLib.\n"
-                  "Import ListNotations.\nOpen Scope Z_scope.\n\n"
-                  "Definition translation_available : bool := true.\n\n")
-        return header + "\n\n".join(self.const_defs + self.func_defs) + "\n"
-
-
-def translate(source, entry=None):
-    return Module(source, entry).run()
+def translate(source):
+    tr = pytranslate.Translator(source, config())
+    tr.whole_module(ENTRY, ENTRY_RET)
+    return tr.emit("whole module")
 
 
 def stub(reason):
-    """what is written to coq/gen/C20_Translated.v when the source leaves the subset: the API functions with their
-    types and no content, and the flag that makes coq/C20/TransEq.v fail at its first lemma and coq/C20/Run.v compare
-    the hand model alone (instead of a stale translation of some other text)"""
-    reason = reason.replace("*)", "* )").replace("(*", "( *")
-    return ("(* generated by harness/props/c20_translate.py -- do not edit.\n"
-            "   ak/short_uuid.py is OUTSIDE the translator's subset: " + reason + " *)\n"
-            "From Coq Require Import ZArith List Bool.\n"
-            "From AK Require Import Common.Err C20.PyLib.\n"
-            "Import ListNotations.\nOpen Scope Z_scope.\n\n"
-            "Definition translation_available : bool := false.\n\n"
-            "Definition T_uuid_from_short_str (L : uuid_lib) (fuel : nat) (v : pyobj) : res (UUID L) := Err OtherErr.\n"
-            "Definition T_uuid_to_short_str (L : uuid_lib) (fuel : nat) (v : UUID L) : res (list Z) := Err OtherErr.\n"
-            "Definition T_uuid_from_str (L : uuid_lib) (fuel : nat) (v : list Z) : res (UUID L) := Err OtherErr.\n")
-
-
-# ---------------------------------------------------------------------------------------------------------
-# self test of the translator + coq/C20/PyLib.v (not part of bin/check; `python -m harness.props.c20_translate --selftest`):
-# a module that exercises the supported constructs is translated, the translated functions are evaluated by
-# coqc (vm_compute) and compared with what CPython does on the same arguments (value or exception class).
-SELFTEST_SRC = """
-import uuid
-_T = list("abc")
-_D = dict((c, i) for i, c in enumerate(_T + _T))
-_E = {c: i * 2 for i, c in enumerate(_T, 5) if i != 6}
-_N = 3
-
-def f_arith(a, b):
-    q, r = divmod(a, b)
-    return q * 1000 + r * 10 + a // b - a % b + (a ** 2) + (1 << 3) - (-a)
-
-def f_index(s, i):
-    return s[i] + _T[i]
-
-def f_slice(s, i, j):
-    return s[i:j] + "|" + s[i:] + "|" + s[:j] + "|" + s[::-1]
-
-def f_strip(s, c):
-    return s.strip(c) + "|" + s.lstrip(c) + "|" + s.rstrip(c)
-
-def f_just(s, n):
-    return s.rjust(n, "*") + s.ljust(n, "-") + s.rjust(n) + s * n + n * s
-
-def f_dict(s):
-    return _D[s] * 10 + _E[s]
-
-def f_try(s, i):
-    try:
-        x = _D[s]
-        y = _T[i]
-        if x > 4:
-            return 100
-    except KeyError:
-        return -1
-    except (IndexError, ValueError) as err:
-        raise TypeError("x") from err
-    return x + len(y)
-
-def f_try2(s):
-    try:
-        assert len(s) > 1, "short"
-        n = _T.index(s[1])
-    except LookupError:
-        n = -5
-    except Exception:
-        raise
-    return n
-
-def f_bool(a, b):
-    if a > 0 and 10 // a > b or not b:
-        return 1
-    ok = a == b or 7 % a == 0
-    return 0 if ok else 2
-
-def f_loop(n):
-    total = 0
-    i = 0
-    while i < n:
-        for j in range(i, n):
-            total += j * (1 if j % 2 else -1)
-        i += 1
-    return total
-
-def f_join(s):
-    t = "-".join(reversed(s)) + "".join(c + c for c in s if c != "a")
-    for k, (c, d) in enumerate(zip(s, s[1:])):
-        if c in _T and d not in _D and 0 <= k < _N:
-            t += c + d
-    return t
-
-def f_uuid(n):
-    u = uuid.UUID(int=n)
-    return u.int + 1
-
-def f_call(s, i):
-    return f_dict(s) + f_loop(i)
-"""
-SELFTEST_ENTRY = {"f_arith": ["int", "int"], "f_index": ["str", "int"], "f_slice": ["str", "int", "int"],
-                  "f_strip": ["str", "str"], "f_just": ["str", "int"], "f_dict": ["str"], "f_try": ["str", "int"],
-                  "f_try2": ["str"], "f_bool": ["int", "int"], "f_loop": ["int"], "f_join": ["str"], "f_uuid": ["int"],
-                  "f_call": ["str", "int"]}
-
-
-def selftest(workdir="/tmp/c20_translate_selftest"):
-    import itertools
-    import os
-    import subprocess
-    from harness.lib import sx as SX
-    coq = os.path.join(os.path.dirname(os.path.dirname(os.path.dirname(os.path.abspath(__file__)))), "coq")
-    ints = [-7, -3, -1, 0, 1, 2, 3, 5, 10]
-    strs = ["", "a", "b", "c", "d", "ab", "abc", "xxabxx", "cabbage", "é\U0001f600a"]
-    args = {"int": ints, "str": strs}
-    ns = {}
-    exec(SELFTEST_SRC, ns)
-    text = translate(SELFTEST_SRC, SELFTEST_ENTRY)
-    lines, want = [], []
-    for f, ptypes in SELFTEST_ENTRY.items():
-        rstr = None
-        for vals in itertools.product(*[args[t] for t in ptypes]):
-            if f == "f_just" and vals[1] > 5:
-                continue
-            try:
-                r = ns[f](*vals)
-                exp = SX.ok(r) if isinstance(r, int) else SX.ok(SX.s(r))
-                rstr = isinstance(r, str)
-            except Exception as e:  # noqa
-                exp = SX.err("OtherError" if isinstance(e, (ZeroDivisionError, OverflowError)) else SX.exc_name(e))
-            want.append((f, vals, SX.dumps(exp)))
-        enc = "sx_str" if rstr else "SZ"
-        for ff, vals, _ in [w for w in want if w[0] == f]:
-            a = " ".join(SX.cZ(v) if isinstance(v, int) else SX.cstr(v) for v in vals)
-            lines.append(f"sx_res {enc} ({PREFIX}{f} L0 40 {a})")
-    os.makedirs(workdir, exist_ok=True)
-    with open(os.path.join(workdir, "SelfTest.v"), "w") as fh:
-        fh.write(text)
-        fh.write("From AK Require Import Common.Sx.\nFrom Coq Require Import String.\nOpen Scope Z_scope.\n"
-                 "Definition L0 : uuid_lib := {| UUID := Z; UUID_of_int := fun n => if (0 <=? n) && (n <? 2 ^ 128) then Ok n else Err ValueErr;\n"
-                 "  UUID_of_str := fun _ => Err ValueErr; UUID_int := fun u => u |}.\n"
-                 "Set Printing Width 1000000.\nSet Printing Depth 1000000.\n"
-                 + "".join("Eval vm_compute in (show_lines [\n" + ";\n".join(lines[i:i + 100]) + "\n]).\n"
-                           for i in range(0, len(lines), 100)))
-    p = subprocess.run(["timeout", "600", "coqc", "-R", coq, "AK", "-top", "SelfTest", "SelfTest.v"], cwd=workdir,
-                       capture_output=True, text=True)
-    if p.returncode != 0:
-        print(p.stdout[-3000:], p.stderr[-3000:])
-        return 1
-    got = []
-    for chunk in re.findall(r'=\s*"(.*?)"\s*:\s*string', p.stdout, re.S):
-        got += chunk.split("\n")[:-1]
-    bad_ = 0
-    for (f, vals, exp), g in zip(want, got):
-        if exp.strip() != g.strip():
-            bad_ += 1
-            if bad_ <= 20:
-                print(f"MISMATCH {f}{vals}: python {exp}   coq {g}")
-    print(f"selftest: {len(want)} calls of {len(SELFTEST_ENTRY)} functions compared, {bad_} mismatches")
-    return 1 if bad_ or len(got) != len(want) else 0
+    return pytranslate.stub(config(), reason, [
+        ("T_uuid_from_short_str", "(v : pyobj) : res (UUID L)"),
+        ("T_uuid_to_short_str", "(v : UUID L) : res (list Z)"),
+        ("T_uuid_from_str", "(v : list Z) : res (UUID L)")])
 
 
 if __name__ == "__main__":
     if sys.argv[1:2] == ["--selftest"]:
-        sys.exit(selftest())
+        sys.exit(pytranslate.selftest())
     sys.stdout.write(translate(open(sys.argv[1]).read()))
